@@ -10,6 +10,8 @@ CONSTANTS
  DevNoExpiry = FALSE
  DevLogoutKeeps = FALSE
  DevLimiterPerWindowStart = FALSE
+ DevAnyCookieValid = FALSE
+ PairJars = TRUE
 INIT TInit
 NEXT TNext
 POSTCONDITION Reached
